@@ -503,24 +503,46 @@ def discover(repo):
 
 
 def check_recursions(repo, chk):
+    from .c18_sem import run_semantics
+
+    decided = run_semantics(repo, chk)  # helpers whose behaviour on every container kind was interpreted and found right
+    real_violation = chk.violation
+
+    def violation(rule, where, construct, msg, **kw):
+        # the syntactic rules recognise a fixed set of spellings; for a helper that the interpretation has already
+        # decided they only add information (an unrecognised spelling is not a defect)
+        if rule in ("K1", "K2", "K3", "K5", "K6") and where in decided:
+            chk.info("%s pattern not recognised in %s (%s); the helper is decided by K-sem" % (rule, where, construct))
+            return
+        real_violation(rule, where, construct, msg, **kw)
+
     recs = {}
     for key in sorted(RECURSIONS):
         kinds, flags, reason = RECURSIONS[key]
         fn = repo.fn(key)
-        r = Recursion(repo, fn, flags)
+        try:
+            r = Recursion(repo, fn, flags)
+        except AnalysisError as e:
+            if key in decided:
+                chk.info("%s: dispatch shape not recognised (%s); decided by K-sem" % (key, e))
+                chk.instance("K1", "%s decided by interpretation (K-sem)" % key)
+                for k in sorted(kinds):
+                    chk.instance("K3", "%s [%s] decided by interpretation (K-sem)" % (key, k))
+                continue
+            raise
         recs[key] = r
         rel = key.split("::")[0]
         got = r.kinds()
         tests = "; ".join("(%s)" % ",".join(sorted(b.kinds)) for b in r.branches)
         chk.instance("K1", "%s subject `%s` dispatches on %s  [%s]" % (key, r.subject, tests or "-", reason))
         for k in sorted(kinds - got):
-            chk.violation(
+            violation(
                 "K1", key, "missing-kind:%s" % k,
                 "no branch handles `%s` any more: a %s inside the data is treated as a leaf and passed through unprocessed" % (k, k),
                 file=rel, line=fn.lineno,
             )
         for k in sorted(got - kinds):
-            chk.violation("K1", key, "new-kind:%s" % k, "branch for `%s` is not in the confirmed table; read it and extend RECURSIONS" % k, file=rel, line=fn.lineno)
+            violation("K1", key, "new-kind:%s" % k, "branch for `%s` is not in the confirmed table; read it and extend RECURSIONS" % k, file=rel, line=fn.lineno)
         seen = {}
         for b in r.branches:
             for k in b.kinds:
@@ -542,7 +564,7 @@ def check_recursions(repo, chk):
         for b in r.branches:
             label = "+".join(sorted(b.kinds))
             for construct, msg, node in b.problems:
-                chk.violation("K3", key, "%s@%s" % (construct, label), "%s branch: %s" % (label, msg), file=rel, line=getattr(node, "lineno", fn.lineno))
+                violation("K3", key, "%s@%s" % (construct, label), "%s branch: %s" % (label, msg), file=rel, line=getattr(node, "lineno", fn.lineno))
         # K4
         zt = [b for b in r.branches if b.zip_transposed]
         if zt:
@@ -550,14 +572,14 @@ def check_recursions(repo, chk):
                 label = "+".join(sorted(b.kinds))
                 chk.instance("K4", "%s [%s] zip(*children) transposition, empty-container guard: %s" % (key, label, b.guard or "none"))
                 if b.guard is None:
-                    chk.violation(
+                    violation(
                         "K4", key, "empty-guard-missing@%s" % label,
                         "an empty %s has no children, zip() of nothing yields nothing, so the parent's zip(*children) stops at once: "
                         "every batch of the whole structure is lost (the sibling kinds have a guard)" % label,
                         file=rel, line=b.node.lineno,
                     )
                 elif b.guard.startswith("bounded"):
-                    chk.violation(
+                    violation(
                         "K4", key, "empty-guard-bounded@%s" % label,
                         "the guard for an empty %s yields it only `%s` times; the parent's zip(*children) is truncated to that many batches"
                         % (label, b.guard.split(":", 1)[1]),
@@ -570,7 +592,7 @@ def check_recursions(repo, chk):
                 continue
             chk.instance("K5", "%s [%s] option `%s` in `%s`: %s" % (key, label, param, norm_text(call), "forwarded" if ok else "NOT forwarded"))
             if not ok:
-                chk.violation(
+                violation(
                     "K5", key, "%s@%s" % (param, label),
                     "recursive call `%s` does not forward option `%s`: below the top level it silently reverts to its default" % (norm_text(call), param),
                     file=rel, line=call.lineno,
@@ -580,7 +602,7 @@ def check_recursions(repo, chk):
         ka, kb = recs[a].kinds(), recs[b].kinds()
         chk.instance("K2", "%s: %s {%s} / %s {%s}" % (what, a.split("::")[1], ",".join(sorted(ka)), b.split("::")[1], ",".join(sorted(kb))))
         if ka != kb:
-            chk.violation(
+            violation(
                 "K2", a, "partner:%s" % b.split("::")[1],
                 "%s handle different container kinds: {%s} vs {%s}" % (what, ",".join(sorted(ka)), ",".join(sorted(kb))),
                 file=a.split("::")[0], line=recs[a].fn.lineno,
@@ -589,13 +611,13 @@ def check_recursions(repo, chk):
     chk.instance("K2", "flatten/nest leaf kinds: {%s} / {%s}; struct maps {%s} to TensorSpec" % (
         ",".join(sorted(fl.leaf_kinds)), ",".join(sorted(ne.leaf_kinds)), ",".join(sorted(ws.leaf_kinds))))
     if fl.leaf_kinds != ne.leaf_kinds:
-        chk.violation(
+        violation(
             "K2", fl.fn.key, "leaf-kinds",
             "_flatten counts leaves of kinds {%s} but _nest consumes one value for kinds {%s}: values are assigned to the wrong leaves"
             % (",".join(sorted(fl.leaf_kinds)), ",".join(sorted(ne.leaf_kinds))), file=WRAP, line=fl.fn.lineno,
         )
     if not ws.leaf_kinds <= fl.leaf_kinds or not any(k.endswith("TensorSpec") for k in fl.leaf_kinds):
-        chk.violation(
+        violation(
             "K2", fl.fn.key, "leaf-kinds-struct",
             "_wrap_struct turns {%s} into TensorSpec leaves, _flatten must count all of them and TensorSpec" % ",".join(sorted(ws.leaf_kinds)),
             file=WRAP, line=fl.fn.lineno,
@@ -610,13 +632,13 @@ def check_recursions(repo, chk):
     of, on, ow = dict_order(fl), dict_order(ne), dict_order(ws)
     chk.instance("K2", "dict traversal order: _flatten %s, _wrap_struct %s, _nest %s (on the structure built by _wrap_struct)" % (of, ow, on))
     if of != ow:
-        chk.violation(
+        violation(
             "K2", fl.fn.key, "dict-order",
             "_flatten visits dict values in %s order but _wrap_struct in %s order: the i-th flattened value is not the i-th leaf of the structure" % (of, ow),
             file=WRAP, line=fl.fn.lineno,
         )
     if on not in ("insertion", ow):
-        chk.violation("K2", ne.fn.key, "dict-order", "_nest visits dict values in %s order, the structure was built in %s order" % (on, ow), file=WRAP, line=ne.fn.lineno)
+        violation("K2", ne.fn.key, "dict-order", "_nest visits dict values in %s order, the structure was built in %s order" % (on, ow), file=WRAP, line=ne.fn.lineno)
 
     # K6 delegates
     for key in sorted(DELEGATES):
@@ -633,7 +655,7 @@ def check_recursions(repo, chk):
             raise AnalysisError("%s no longer delegates to %s" % (key, callee))
         chk.instance("K6", "%s -> `%s` [%s]" % (key, norm_text(hit), reason))
         if norm_text(hit.args[0]) != subj:
-            chk.violation(
+            violation(
                 "K6", key, "subject",
                 "delegates `%s` instead of its whole subject `%s` to %s" % (norm_text(hit.args[0]), subj, callee), file=key.split("::")[0], line=hit.lineno,
             )
